@@ -550,6 +550,8 @@ Proof.
   - apply leaves_wrap. intros [m1|]; unfold Lf; cbn [fst snd]; auto.
   - apply leaves_wrap. intros [m1|]; unfold Lf; cbn [fst snd]; auto.
   - destruct mm; [cbn [leaves]; exact I|]. apply leaves_wrap. intros a. exact I.
+  - destruct (Nat.ltb last (length mm) && Nat.leb first last); [|cbn [leaves]; exact I].
+    apply leaves_wrap. intros a. exact I.
   - destruct mm; [cbn [leaves]; exact I|]. apply leaves_wrap. intros a. exact I.
 Qed.
 
@@ -873,46 +875,46 @@ Qed.
 (* property C09, strict reading: for traces in which no Add starts while a table the handle
    holds is unlisted but still on disk (any attempt bound) *)
 Theorem c09_all_traces_strong : forall size_oracle attempts tabs scripts sched,
-  init_ok tabs -> Forall (fun s => forallb modelled s = true) scripts ->
+  init_ok tabs ->
   c09_precond (trace_of size_oracle attempts tabs scripts sched) = true ->
   c09_ok (trace_of size_oracle attempts tabs scripts sched) = true.
 Proof.
-  intros so att tabs scripts sched Hi Hs Hpre.
+  intros so att tabs scripts sched Hi Hpre.
   unfold c09_ok, c09_precond, trace_of in *. rewrite <- c09g_strict.
   destruct (run so att (init_world tabs scripts) sched) as [w' evs] eqn:E. cbn [snd] in *.
   cbn [c09g_loop]. cbn [c09_pre] in Hpre.
   destruct att as [|a]; [exact (run_att0 snap_eqb so sched _ _ _ _ (no_stack_init tabs scripts) E)|].
   exact (run_c09 snap_eqb held_gone clause_holds so a sched _ _ (init_world tabs scripts) [] w' evs
-           (@WInv_init tabs scripts Hi Hs) (J_init tabs scripts) E Hpre).
+           (@WInv_init tabs scripts Hi) (J_init tabs scripts) E Hpre).
 Qed.
 
 (* property C09, gc-tolerant reading: every trace *)
 Theorem c09_gc_all_traces_strong : forall size_oracle attempts tabs scripts sched,
-  init_ok tabs -> Forall (fun s => forallb modelled s = true) scripts ->
+  init_ok tabs ->
   c09_ok_gc (trace_of size_oracle attempts tabs scripts sched) = true.
 Proof.
-  intros so att tabs scripts sched Hi Hs.
+  intros so att tabs scripts sched Hi.
   unfold c09_ok_gc, trace_of. rewrite <- c09g_gc.
   destruct (run so att (init_world tabs scripts) sched) as [w' evs] eqn:E. cbn [snd].
   cbn [c09g_loop].
   destruct att as [|a]; [exact (run_att0 snap_gc so sched _ _ _ _ (no_stack_init tabs scripts) E)|].
   exact (run_c09 snap_gc (fun _ _ => true) clause_holds_gc so a sched _ _ (init_world tabs scripts) [] w' evs
-           (@WInv_init tabs scripts Hi Hs) (J_init tabs scripts) E (c09_pre_true _ _ _)).
+           (@WInv_init tabs scripts Hi) (J_init tabs scripts) E (c09_pre_true _ _ _)).
 Qed.
 
 (* the statements as requested (the hypothesis on the attempts is not needed any more: see above) *)
 Theorem c09_all_traces : forall size_oracle attempts tabs scripts sched,
-  init_ok tabs -> Forall (fun s => forallb modelled s = true) scripts ->
+  init_ok tabs ->
   (1 <= attempts)%nat ->
   c09_precond (trace_of size_oracle attempts tabs scripts sched) = true ->
   c09_ok (trace_of size_oracle attempts tabs scripts sched) = true.
-Proof. intros so att tabs scripts sched Hi Hs _ Hpre. apply c09_all_traces_strong; assumption. Qed.
+Proof. intros so att tabs scripts sched Hi _ Hpre. apply c09_all_traces_strong; assumption. Qed.
 
 Theorem c09_gc_all_traces : forall size_oracle attempts tabs scripts sched,
-  init_ok tabs -> Forall (fun s => forallb modelled s = true) scripts ->
+  init_ok tabs ->
   (1 <= attempts)%nat ->
   c09_ok_gc (trace_of size_oracle attempts tabs scripts sched) = true.
-Proof. intros so att tabs scripts sched Hi Hs _. apply c09_gc_all_traces_strong; assumption. Qed.
+Proof. intros so att tabs scripts sched Hi _. apply c09_gc_all_traces_strong; assumption. Qed.
 
 Print Assumptions c09_all_traces.
 Print Assumptions c09_gc_all_traces.
@@ -968,11 +970,11 @@ Module Counterexamples.
   (* the unrestricted strict statement is false *)
   Theorem c09_unrestricted_refuted :
     ~ (forall size_oracle attempts tabs scripts sched,
-         init_ok tabs -> Forall (fun s => forallb modelled s = true) scripts -> (1 <= attempts)%nat ->
+         init_ok tabs -> (1 <= attempts)%nat ->
          c09_ok (trace_of size_oracle attempts tabs scripts sched) = true).
   Proof.
     intro H. assert (E : c09_ok tr_c = true).
-    { apply H; [apply init_ok_2|repeat constructor|repeat constructor]. }
+    { apply H; [apply init_ok_2|repeat constructor]. }
     destruct ce_paused_compaction as [X _]. rewrite X in E. discriminate E.
   Qed.
 
